@@ -156,7 +156,7 @@ CLAIMED = {
          "DESIGN.md section 5 C09",
          "contract-based deductive verification (govc WP over go/ssa, z3/cvc5)",
          "Hang-freedom is not covered (termination of the creation recursion is stage B). defaultFactory.PrepareComponents and "
-         "InvokeBeanFactoryPostProcessors are used through the interface-level phase contract (not yet proved against their bodies). "
+         "InvokeBeanFactoryPostProcessors are proved against the interface-level phase contract (their own wiring preconditions are A-WIRING). "
          "Property.Unmarshall is trusted (third-party decoding; it writes only its own field). Own preconditions of the built-in processors "
          "are assumed at dynamic dispatch (A-WIRING, listed per function in the evidence). logger.Fatalf is assumed not to return. " + TRUST),
  "C20": ("other",
@@ -202,8 +202,10 @@ CLAIMED = {
          "DESIGN.md section 5 C18",
          "contract-based deductive verification (govc WP over go/ssa, z3/cvc5)",
          "expr.Compile / expr.Run and validator.Struct / Var are third-party: their verdicts are named by spec functions (A-LIB), the "
-         "constraint and expression semantics themselves are not verified. That the delegate's processor list IS the sorted list "
-         "(InvokeBeanFactoryPostProcessors) is used through the phase contract, not yet proved against the body. " + TRUST),
+         "constraint and expression semantics themselves are not verified. InvokeBeanFactoryPostProcessors is proved to store the sorted list "
+         "([classes-in-order], [order-nondecreasing], [lazy-processors-keep-their-sorted-slot], [placeholders-before-expressions-before-validation]) and "
+         "ResolveAfterInstantiation to apply the properties stage in list order ([properties-stage-in-list-order]); non-lazy processors may be "
+         "replaced by the instance the factory returns for their name (then only the slot is known). " + TRUST),
  "C11": ("proof",
          "Field scanning and tag scanning are verified on the real reflective code against an axiomatised reflect (A-REFLECT): "
          "ForEachFieldV2 calls the acceptor for field 0..n-1 of the (dereferenced) struct in order with the field's descriptor and value, "
